@@ -12,6 +12,8 @@ R17.6 error sources intact  : every operation that grows the stack sits behind t
       into an error, and gas is charged / inherited as C03 R03.4 requires: an error that is never raised cannot be surfaced.
 R17.5 errors are located    : in opcode implementations, the stack handle and the VM loop, the argument of `.locate(..)` derives
       from the current instruction pointer.
+R17.7 pipeline complete     : every exit of Extractor::analyze / TypeChecker::run that is not an error has passed through every
+      stage (by-value state transitions of the extractor; the polled public stages of the type checker), read from the code.
 """
 import re
 from .. import facts as F
